@@ -171,6 +171,15 @@ TABLE = _mk_table()
 HIDDEN_STATE = {"im.calc_sir", "im.calc_acc_rms", "stockwell.get_max_stockwell_freq"}
 
 
+SRC_KINDS = ["f8", "f4", "i8", "list", "tuple", "view", "view_strided", "f8_2d:row", "object.values"]
+SWEEP_ROUTES = ["Signal()", "AccSignal()", "Cluster()", "reset_values:Signal", "reset_values:AccSignal"]
+FOLLOW = ["caller-write"] + ["inplace:" + m for m in INPLACE] + ["mut:add_constant", "mut:remove_poly", "mut:butter_pass:low"]
+SWEEP_OWN = [(k, r, f) for k in SRC_KINDS for r in SWEEP_ROUTES for f in FOLLOW]
+REC_KINDS = ["f8", "f4", "i8", "list", "tuple", "view", "view_strided", "object.values"]
+SWEEP_PURE = [(name, k) for name in sorted(TABLE) for k in REC_KINDS]
+N_SWEEP = len(SWEEP_OWN) + len(SWEEP_PURE)
+
+
 class World(object):
     def __init__(self):
         self.bufs = {}
@@ -214,6 +223,17 @@ class C05(Profile):
     # ------------------------------------------------------------------------------------------
     def make_config(self, rng, tier, index):
         thorough = tier == "thorough"
+        if index < N_SWEEP:
+            cfg = {"length": 0, "n_range": (32, 64), "faults_on": False, "k1_rate": 0.0, "k2_rate": 0.0, "p_call": 0.0,
+                   "cluster": False, "mut_off": [], "call_index": 0, "max_steps": 30}
+            if index < len(SWEEP_OWN):
+                k, r, f = SWEEP_OWN[index]
+                cfg.update(run_class="sweep-ownership", sweep={"kind": k, "route": r, "follow": f})
+            else:
+                name, k = SWEEP_PURE[index - len(SWEEP_OWN)]
+                cfg.update(run_class="sweep-purity", sweep={"fn": name, "kind": k})
+            return cfg
+        index -= N_SWEEP
         rc = index % 3
         cfg = {
             "run_class": ["ownership", "purity", "mixed"][rc],
@@ -751,6 +771,11 @@ class C05(Profile):
             "repeat_call_comparisons": agg.get("repeat_checks", 0),
             "later_repeat_call_comparisons": agg.get("later_repeat_checks", 0),
             "run_classes": agg.get("run_class", {}),
+            "sweeps": {"ownership": {"triples": len(SWEEP_OWN), "definition": "source kind x hand-over route x follow-up",
+                                     "runs_executed": agg.get("run_class", {}).get("sweep-ownership", 0)},
+                       "purity": {"pairs": len(SWEEP_PURE), "definition": "catalogued function x kind of record argument",
+                                  "runs_executed": agg.get("run_class", {}).get("sweep-purity", 0)},
+                       "note": "directed runs placed first in every tier; arguments are seeded, the listed dimensions are enumerated"},
         }
 
 
@@ -769,6 +794,7 @@ class Gen(object):
         self.cur_dt = 0.01
         self.c04gen = c04mod.OpGen(None, rng, dict(config, seed=config.get("seed", 0)))
         self.started = False
+        self.force_rec = None
         self.names = sorted(TABLE)
 
     # -- entry --------------------------------------------------------------------------------------
@@ -800,8 +826,73 @@ class Gen(object):
         self.emitted += 1
         return op
 
+    def _plan_sweep(self, world):
+        rng = self.rng
+        sw = self.cfg["sweep"]
+        kind = sw["kind"]
+        n = rng.randint(32, 64)
+        # the source the caller owns
+        if kind == "f8_2d:row":
+            self.queue.append(lambda w: self.g_buf(n=n, kind="f8_2d"))
+            src = {"ref": "B0", "row": 1}
+        elif kind == "object.values":
+            self.queue.append(lambda w: self.g_buf(n=n, kind="f8"))
+            self.queue.append(lambda w: {"op": "new", "p": "S9", "cls": "AccSignal", "src": {"ref": "B0"}, "dt": 0.01, "kw": {}})
+            src = {"vals": "S9"}
+        else:
+            self.queue.append(lambda w: self.g_buf(n=n, kind=kind))
+            src = {"ref": "B0"}
+        small = {"smooth_fa_freqs": nd([0.5, 2.0, 8.0]), "response_times": nd([0.1, 0.5, 1.0])}
+        if "fn" in sw:          # purity sweep: one function, one kind of record argument
+            self.queue.append(lambda w: {"op": "new", "p": "S0", "cls": "AccSignal", "src": {"arr": nd(gen_record(rng, n))},
+                                         "dt": 0.01, "kw": dict(small)})
+            self.queue.append(lambda w: {"op": "new", "p": "S1", "cls": "AccSignal", "src": {"arr": nd(gen_record(rng, n))},
+                                         "dt": 0.01, "kw": dict(small)})
+            self.force_rec = src
+            for _ in range(2):
+                self.queue.append(lambda w: self.g_call(w, sw["fn"]))
+            self.queue.append(lambda w: self.g_read(w))
+            self.queue.append(lambda w: self.g_call(w, sw["fn"]))
+            return
+        route = sw["route"]
+        if route in ("Signal()", "AccSignal()"):
+            cls = route[:-2]
+            self.queue.append(lambda w: {"op": "new", "p": "S0", "cls": cls, "src": src, "dt": 0.01,
+                                         "kw": ({k: v for k, v in small.items() if cls == "AccSignal" or k != "response_times"})})
+            target = "S0"
+        elif route == "Cluster()":
+            self.queue.append(lambda w: self.g_buf(n=n, kind="f8"))
+            other = {"ref": "B1"} if kind != "object.values" else {"ref": "B0"}
+            self.queue.append(lambda w: {"op": "newk", "p": "K0", "values": [other, src], "dt": 0.01,
+                                         "kw": {"stypes": "acc", "master_index": 0}})
+            target = "K0.1"
+        else:
+            cls = route.split(":")[1]
+            self.queue.append(lambda w: {"op": "new", "p": "S0", "cls": cls, "src": {"arr": nd(gen_record(rng, n))}, "dt": 0.01,
+                                         "kw": ({k: v for k, v in small.items() if cls == "AccSignal" or k != "response_times"})})
+            self.queue.append(lambda w: {"op": "reset", "p": "S0", "src": src})
+            target = "S0"
+        self.no = max(self.no, 1)
+        fol = sw["follow"]
+
+        def follow(w, fol=fol):
+            if fol == "caller-write":
+                return self.g_write(w)
+            m = fol.split(":", 1)[1]
+            if _cls_name(w.objs[target]) != "AccSignal" and m not in c04mod.MUT_SIG:
+                m = "running_average"
+            g = self.c04gen
+            g.cfg = dict(self.cfg)
+            return g.g_mut(w, target, m)
+        self.queue.append(follow)
+        self.queue.append(lambda w: self.g_write(w))
+        self.queue.append(lambda w: follow(w, "inplace:" + rng.choice(INPLACE)))
+        self.queue.append(lambda w: self.g_read(w))
+
     def _plan(self, world):
         rng = self.rng
+        if self.cfg.get("sweep"):
+            return self._plan_sweep(world)
         self.queue.append(lambda w: self.g_buf())
         self.queue.append(lambda w: self.g_new(w))
         if self.cfg["cluster"]:
@@ -1110,6 +1201,15 @@ class Gen(object):
         rng, world = self.rng, self.world
         max_n = max_n or 256
         r = rng.random()
+        if self.force_rec is not None:
+            fr = self.force_rec
+            kd = world.kind.get(fr.get("ref"), "f8") if "ref" in fr else "f8"
+            if (nd_only and kd in ("list", "tuple")) or (float_only and kd == "i8"):
+                raise _Skip()
+            ln = len(self.profile._res(world, fr))
+            if ln > max_n or ln < min_n:
+                raise _Skip()
+            return dict(fr)
         names = []
         for b in self._buf_names(world, min_n=min_n):
             kd = world.kind[b]
